@@ -122,4 +122,84 @@ func (Params).NewItem
     ensures[ts]     ret0.Timestamp == ite(o.Times, max(micro(m.Time), prevts), 0)
     ensures[hash]   ret0.KeyHash == ite(o.Keys, keyHash(bseq(m.Key)), 0)
 
+
+// ================================================================ index file writing: durability typestate (C05, C06)
+
+pred iwOK(w *Writer) := w != nil && w.f != nil
+
+// ASSUMED (I/O prologue)
+func OpenWriter
+    flags assumed
+    assigns fPath, fsExists, fsDirty
+    ensures err == nil ==> w != nil && fresh(w) && iwOK(w) && fPath[w.f] == path
+    ensures err != nil ==> w == nil
+    ensures forall g *os.File :: !fresh(g) ==> fPath[g] == old(fPath[g])
+    ensures forall p string :: p != path ==> fsExists[p] == old(fsExists[p]) && fsDirty[p] == old(fsDirty[p])
+
+field Writer.writer
+    requires[sync_ok] iwOK(self)
+    assigns fsDirty
+    ensures[sync_frame] forall p string :: p != fPath[self.f] ==> fsDirty[p] == old(fsDirty[p])
+
+func (*Writer).Write
+    flags noframe
+    requires[sync_ok] iwOK(w)
+    assigns fsDirty
+    ensures[sync_frame] forall p string :: p != fPath[w.f] ==> fsDirty[p] == old(fsDirty[p])
+
+func (*Writer).writeBase
+    flags noframe only_sync
+    requires[sync_ok] iwOK(w)
+    assigns fsDirty, Writer.pos
+    ensures[sync_frame] forall p string :: p != fPath[w.f] ==> fsDirty[p] == old(fsDirty[p])
+func (*Writer).writeTimes
+    flags noframe only_sync
+    requires[sync_ok] iwOK(w)
+    assigns fsDirty, Writer.pos
+    ensures[sync_frame] forall p string :: p != fPath[w.f] ==> fsDirty[p] == old(fsDirty[p])
+func (*Writer).writeKeys
+    flags noframe only_sync
+    requires[sync_ok] iwOK(w)
+    assigns fsDirty, Writer.pos
+    ensures[sync_frame] forall p string :: p != fPath[w.f] ==> fsDirty[p] == old(fsDirty[p])
+func (*Writer).writeFull
+    flags noframe only_sync
+    requires[sync_ok] iwOK(w)
+    assigns fsDirty, Writer.pos
+    ensures[sync_frame] forall p string :: p != fPath[w.f] ==> fsDirty[p] == old(fsDirty[p])
+
+func (*Writer).Sync
+    flags noframe
+    requires[sync_ok] iwOK(w)
+    assigns fsDirty
+    ensures[sync_clean] err == nil ==> !fsDirty[fPath[w.f]]
+    ensures[sync_frame] forall p string :: p != fPath[w.f] ==> fsDirty[p] == old(fsDirty[p])
+
+func (*Writer).Close
+    flags noframe
+    requires[sync_ok] w != nil
+
+func (*Writer).SyncAndClose
+    flags noframe
+    requires[sync_ok] iwOK(w)
+    assigns fsDirty
+    ensures[sync_clean] err == nil ==> !fsDirty[fPath[w.f]]
+    ensures[sync_frame] forall p string :: p != fPath[w.f] ==> fsDirty[p] == old(fsDirty[p])
+
+// writes a complete index file and makes it durable before returning
+func Write
+    flags noframe only_sync
+    assigns fPath, fsExists, fsDirty, Writer.pos
+    ensures[sync_clean] retErr == nil ==> !fsDirty[path]
+    ensures[sync_handles] forall g *os.File :: !fresh(g) ==> fPath[g] == old(fPath[g])
+    ensures[sync_frame] forall p string :: p != path ==> fsDirty[p] == old(fsDirty[p]) && fsExists[p] == old(fsExists[p])
+    loop 1
+      invariant[sync] iwOK(w) && fPath[w.f] == path && (forall p string :: p != path ==> fsDirty[p] == old(fsDirty[p]) && fsExists[p] == old(fsExists[p])) && (forall g *os.File :: !fresh(g) ==> fPath[g] == old(fPath[g]))
+    loop 2
+      invariant[sync] iwOK(w) && fPath[w.f] == path && (forall p string :: p != path ==> fsDirty[p] == old(fsDirty[p]) && fsExists[p] == old(fsExists[p])) && (forall g *os.File :: !fresh(g) ==> fPath[g] == old(fPath[g]))
+    loop 3
+      invariant[sync] iwOK(w) && fPath[w.f] == path && (forall p string :: p != path ==> fsDirty[p] == old(fsDirty[p]) && fsExists[p] == old(fsExists[p])) && (forall g *os.File :: !fresh(g) ==> fPath[g] == old(fPath[g]))
+    loop 4
+      invariant[sync] iwOK(w) && fPath[w.f] == path && (forall p string :: p != path ==> fsDirty[p] == old(fsDirty[p]) && fsExists[p] == old(fsExists[p])) && (forall g *os.File :: !fresh(g) ==> fPath[g] == old(fPath[g]))
+
 @*/
